@@ -4,9 +4,10 @@ import re
 import compat  # noqa: F401
 from props.base import corpus_for  # noqa: F401
 from props import c01, c08
+from props import c07_fn
 
 ID = 'C07'
-LEAN_MODULES = ['PybtexModel.Props.C07']
+LEAN_MODULES = ['PybtexModel.Props.C07', 'PybtexModel.Props.C07x']
 THEOREMS = {
     'C07_one_per_citation': "RELATIVE TO THE C05 RESOLUTION (resolvedKeys / resolvedEntries = the model's own addExtraCitations + drop-missing prefix of format_bibliography, characterised separately by the C05 theorems): sort, label and template neither drop nor duplicate an entry (formatted keys = a permutation of the resolved entries' keys, same number); independent part: every resolved key denotes its stored entry",
     'C07_no_duplicates': 'for well-formed entries no two formatted entries have the same key up to case (from C05_no_dup)',
@@ -21,7 +22,7 @@ THEOREMS = {
     'C07_fuel_irrelevant': 'the fuel bound of the evaluator never influences a result other than out-of-fuel',
     'C07_optional_never_missing': 'optional[...] never propagates a missing field',
     'C07_missing_required_eval': 'a FieldIsMissing(f) of the evaluator names a field/names node outside every optional whose lookup fails (field: along the crossref chain; names: the entry\'s own persons); if all required lookups succeed no such error occurs',
-    'C07_missing_iff': 'exact, evaluator level, FOR SOME FUEL: the evaluation fails with FieldIsMissing(f) for some fuel iff, going left to right (first_of lazily, never into a failing optional), the first node that fails is a field/names node named f whose lookup finds nothing (every sufficient fuel gives the same answer: C07_fuel_irrelevant)',
+    'C07_missing_iff': 'exact, evaluator level, FOR SOME FUEL: the evaluation fails with FieldIsMissing(f) for some fuel iff, going left to right (first_of lazily, never into a failing optional; an href evaluates its URL BEFORE its children, as HRef(_format_data(url), *parts) does - corrected in round 2), the first node that fails is a field/names node named f whose lookup finds nothing (every sufficient fuel gives the same answer: C07_fuel_irrelevant)',
     'C07_missing_required': 'pipeline, ONE DIRECTION (error => cause): a FieldIsMissing error names the field and the key of the first entry (in formatting order) whose template fails with Missing, all earlier entries having been formatted; converse: C07_missing_required_conv (under a fuel hypothesis), at evaluator level C07_missing_iff (for some fuel)',
     'C07_missing_required_conv': "pipeline, converse direction: if labels can be formed, all entries before e in formatting order format without error, Missing holds for e's template and field f, and evalFuel suffices for that template (explicit hypothesis: the evaluation does not run out of fuel), format_bibliography fails with FieldIsMissing(f, key of e)",
     'C07_missing_required_conv_nonvacuous': 'non-vacuity: two-entry database, the first entry formats, the second has no journal: labels form, Missing holds for journal (via C07_missing_iff), evalFuel suffices, and format_bibliography reports FieldIsMissing(journal, nj)',
@@ -33,6 +34,16 @@ THEOREMS = {
     'C07_name_coverage': "for ALL templates (all name-style templates): every name word in printedN (literal child of a name_part on the evaluated path; branch choice by the model's own eval) is shown contiguously in str(output), as the word or as word.abbreviate() when the name_part abbreviates; lifted to every formatted entry; that the shipped name styles put every part of a person under a name_part: oracle only",
     'C07_abbreviate': 'abbreviate(): the pieces (cut at white space / hyphens outside Protected, separators kept) spell the text; the result spells, piece by piece, first character + period for an alphabetic piece (str.isalpha of the interpreter) and the piece itself otherwise',
     'C07_unicode_keys': "person keys of author_year_title are normalised with str.lower (idempotent; persons differing in ASCII letter case only get the same key); _strip_nonalnum yields ASCII letters and digits only (table regenerated from unicodedata); this is ALL that is proved about the sort key beyond the model's definition",
+    'C07_name_style_parts': "the shipped name styles INSIDE the model (formatName = plain / lastfirst NameStyle().format): when the template is produced (every word of the person parses) the name words on its evaluated path (printedN, fuel >= 6) are exactly Text.from_latex of the person's words - plain: first+middle, von, last, lineage; lastfirst: von, last, lineage, first+middle - and only the first+middle words carry the abbreviation flag, equal to abbr (closes the gap 'oracle only' of C07_name_coverage)",
+    'C07_person_words_shown': "composition with C07_name_coverage: if the name style produces template t for a person and t evaluates to r (fuel >= 6), every word w of the person parses to a rich text x and str(r) contains str(x) contiguously (von / last / lineage words; first / middle names without abbr) resp. str(x.abbreviate()) (first / middle names with abbr); whole bibliography: through C07_name_coverage's pipeline part",
+    'C07_person_words_shown_nonvacuous': "non-vacuity: 'de Sartre, Jr, Jean-Paul' - the model builds the expected plain / lastfirst templates (by rfl) and they print 'J.-P. de<nbsp>Sartre, Jr' / 'de<nbsp>Sartre, Jr, J.-P.'; a word a}b gives no template",
+    'C07_name_style_requires_nothing': 'a name template of the shipped name styles contains no field / names node: it adds nothing to the lookups that can be reported missing',
+    'C07_shipped_terminated': "the templates of unsrt.py INSIDE the model (getTemplate): for article, booklet, dataset, manual, mastersthesis, misc, online, patent, phdthesis, proceedings, software, techreport, unpublished and for book / inbook entries with an editor the template satisfies endsInSentence for EVERY entry (was: monitored on samples); pipeline (formatBibliographyShipped, hypothesis: the keys of the database are pairwise distinct): every formatted entry of such an entry is empty or ends with . ? !; incollection / inproceedings stay excluded (finding C07-blank-field-in-unterminated)",
+    'C07_shipped_required': "for each of the seventeen entry types (hypothesis: the type is one of them) the field / names lookups of the model's template outside every optional are the list Spec.requiredOf (article: author, title, journal, year; book / inbook: editor standing for author-or-editor, title, publisher, year; ...; misc-like types: nothing): with C07_missing_required_eval only these can be reported missing",
+    'C07_shipped_required_nonvacuous': 'non-vacuity: the article example entry gets articleTemplate, its required list, 17 types, article is a terminatingEntry, incollection is not',
+    'C07_shipped_types': "the model has a template for exactly the entry types that have a get_<type>_template method in /repo (Gen.pyStyleTypes, regenerated); the message of the BibliographyDataError for other types is composed from the regenerated pieces",
+    'C07_style_configuration': "BaseStyle.__init__ on the regenerated class attributes / group defaults: unsrt = plain names, number labels, citation order; plain = author_year_title; alpha = alpha labels + author_year_title; unsrtalpha = alpha labels + citation order; explicitly given label / name / sorting style and abbreviate_names always win (all 4 x 2 x 2 x 2 x 2 combinations)",
+    'C07_shipped_pipeline': "[model wiring] formatBibliographyShipped (when defined: every name word parses) is formatBibliography on the model's own items (templates of Model/UnsrtStyle, name templates of Model/NameStyle), citations None = the keys of the database in order: every C07 theorem stated for arbitrary items applies to it",
     'C07_alpha_base_label': 'alpha base labels (format_label): end with year[-2:] when the entry has a year; the part made from persons (format_lab_names) consists of ASCII letters, digits and + only; for ordinary entry types with authors the base label is format_lab_names(authors) + year suffix',
 }
 RULE = ('databases over all seventeen entry types, each entry with a random subset of the fields its template reads (values with braces, '
@@ -43,13 +54,19 @@ RULE = ('databases over all seventeen entry types, each entry with a random subs
         'PybtexEngine().format_from_string with the configuration as keyword arguments and each of the four backends; the templates of the '
         'live style object and the name templates of the configured name style are serialised per entry and evaluated by the Lean template '
         'evaluator, the result is rendered by the Lean backend models; non-trivial = at least two formatted entries; distinct by case JSON')
-TRUSTED = ['the templates get_<type>_template(entry) and the name-style templates are INPUTS (serialised Node trees of the live style '
-           'objects), like the .bst files of the BibTeX engine; the template evaluator, rich text, sorting and label styles are modelled',
+TRUSTED = ['the templates get_<type>_template(entry) and the name-style templates are modelled (Model/UnsrtStyle.lean, Model/NameStyle.lean) AND still '
+           'travel with every request as serialised Node trees of the live style objects: `out` is the evaluator on the serialised trees, the '
+           'model trees are compared with them entry by entry (correspondence fields shipped.templates / shipped.person_templates) and the '
+           'fully modelled run (formatBibliographyShipped) with `out` (shipped.out); hand-written after unsrt.py, not generated',
+           'the translator harness/props/c07.py:tmpl (Node -> JSON, keyword defaults of join / words / sentence / names / name_part / href written '
+           'out in _bind) and its inverse c07_fn.build used for the node-level op tmpleval',
            'latexcodec decode is DATA: the decoded form of every field value (computed by the real codec) travels with the request, as in C09',
            'apply_func closures are recognised by probing (dashify / lower / capitalize); an unrecognised closure stops the translator loudly',
            'the backend models of C09 (Model/Backends.lean; latexcodec encode = probed ASCII table + pass-through)',
            'unicodedata (NFD, combining) and str.lower / str.isalpha of the running interpreter: regenerated tables (Gen/StripAccents, Gen/UnicodeCase, Gen/Unicode)']
-ASSUMPTIONS = ['known entry types only (an unknown type raises AttributeError in format_entry: outside the property\'s "seventeen supported entry types")',
+ASSUMPTIONS = ['an entry type the style does not define is reported as BibliographyDataError naming type and entry (modelled, generated: webpage / thesis); '
+               'a style class with a format_<type> method instead of a template method is not modelled (none is shipped: Gen.pyStyleFormatMethods = [])',
+               'name words with unbalanced braces (Person objects built by hand; Person(string) never produces them): formatBibliographyShipped gives no answer',
                'letters outside ASCII: everywhere in persons (sort keys, alpha labels, initials follow the interpreter\'s Unicode tables); in other '
                'field values only where the rich-text model of C08 (ASCII case mapping) applies no case change to them: not as the first character '
                'of a value, upper-case ones only inside braces; no U+0130 / U+03A3 (str.lower is not character-wise there)',
@@ -82,6 +99,8 @@ PERSONS = ['Donald E. Knuth', 'Knuth, Donald E.', 'Leslie Lamport', 'Jean de La 
            "Charles de la Vall{\\'e}e Poussin", 'Anders Jonas Ångström', 'Éric Éz', 'éa, Zoë', 'Łukasz Ørsted-Ñandú', 'Çelik, Ömer',
            'van der Waerden, Bartel L.', 'Иван Петров', 'Ōe Kenzaburō', 'd’Alembert, Jean le Rond', 'Strauß, Jr, Johann']
 STYLES = ['unsrt', 'plain', 'alpha', 'unsrtalpha']
+# entry types the shipped styles do not define: format_entry raises BibliographyDataError naming type and entry
+UNKNOWN_TYPES = ['webpage', 'thesis']
 
 
 # ------------------------------------------------------------------------------------------------
@@ -285,6 +304,8 @@ def _error_of(e):
     if cls == 'FieldIsMissing':
         m = re.match(r'missing (.*) in (.*)$', e.args[0], re.S)
         return ['FieldIsMissing', m.group(1), m.group(2)]
+    if cls == 'BibliographyDataError':
+        return [cls, e.args[0]]
     return [cls]
 
 
@@ -306,7 +327,7 @@ def _engine_run(case, backend):
     kw = {k: case[k] for k in ('label_style', 'name_style', 'sorting_style', 'abbreviate_names') if k in case}
     try:
         with errors.capture():
-            return pybtex.PybtexEngine().format_from_string(bib_text(case), style=case['style'], citations=list(case['citations']), bib_format='bibtex',
+            return pybtex.PybtexEngine().format_from_string(bib_text(case), style=case['style'], citations=['*'] if case['citations'] is None else list(case['citations']), bib_format='bibtex',
                                                             output_backend=backend, min_crossrefs=case['min_crossrefs'], **kw)
     except PybtexError as e:
         return {'error': _error_of(e)}
@@ -315,6 +336,8 @@ def _engine_run(case, backend):
 
 
 def impl(case):
+    if case['op'] in c07_fn.FN_OPS:
+        return c07_fn.impl(case)
     import io
     from pybtex import errors
     from pybtex.exceptions import PybtexError
@@ -323,7 +346,8 @@ def impl(case):
         db = parse_db(case)
         style = make_style(case)
         with errors.capture() as captured:
-            fb = style.format_bibliography(db, list(case['citations']))
+            # citations None: format_bibliography(db) without a citation list = every entry of the database
+            fb = style.format_bibliography(db) if case['citations'] is None else style.format_bibliography(db, list(case['citations']))
             entries = [[e.key, e.label, c08.dump(e.text)] for e in fb]
         out = {'entries': entries, 'reports': [_report(e) for e in captured]}
         # every entry through each of the four backends
@@ -348,6 +372,9 @@ def impl(case):
             diff[b] = [got if isinstance(got, dict) else got[:4000], docs[b] if isinstance(docs[b], dict) else docs[b][:4000]]
     out['engine_diff'] = diff
     out['ends'] = sorted([k, True] for k in expected_ends(case))
+    # the model of the shipped styles (templates, name styles, class attributes) must explain the same run: no differences
+    cfg = configured(case)
+    out['shipped'] = {'config': [cfg['names'], cfg['labels'], cfg['sorting'], cfg['abbr']], 'templates': [], 'person_templates': [], 'out': None}
     return out
 
 
@@ -368,6 +395,8 @@ _REQ_CACHE = {}
 
 def to_request(case):
     import json
+    if case['op'] in c07_fn.FN_OPS:
+        return c07_fn.to_request(case)
     k = json.dumps(case, sort_keys=True)
     if k not in _REQ_CACHE:
         if _PENDING:
@@ -443,15 +472,19 @@ def _to_request(case):
         items.append({'key': key, 'template': t, 'person_templates': pts})
     dec = {}
     for e in entries:
-        for _k, v in e['fields']:
+        # field values and name words: Text.from_latex decodes both (fields in the field node, words in Person.rich_*_names)
+        for v in [v for _k, v in e['fields']] + [w for _r, ps in e['persons'] for p in ps for part in p for w in part]:
             d = decode(v)
             if d != v:
                 dec[v] = d
     from pybtex import errors
     with errors.capture():
-        resolved = [k for k in db.add_extra_citations(list(case['citations']), case['min_crossrefs']) if k in db.entries]
+        cites = list(db.entries.keys()) if case['citations'] is None else list(case['citations'])
+        resolved = [k for k in db.add_extra_citations(cites, case['min_crossrefs']) if k in db.entries]
     return {'op': 'pystyle', 'entries': entries, 'items': items, 'citations': case['citations'], 'min_crossrefs': case['min_crossrefs'],
             'sorting': cfg['sorting'], 'labels': cfg['labels'], 'decode': sorted(dec.items()),
+            # the style by name and the keyword arguments as given: the model of the shipped styles derives everything from these
+            'style': case['style'], 'options': {k: case[k] for k in ('label_style', 'name_style', 'sorting_style', 'abbreviate_names') if k in case},
             # for the oracle only (the driver ignores it): the resolved citations according to the database API (C05)
             'resolved': resolved}
 
@@ -461,23 +494,34 @@ MODEL_BACKENDS = ['text', 'html', 'latex', 'markdown']
 
 
 def compare_view(io):
+    if 'fn' in io:
+        return io['fn']
     if 'error' in io:
         v = {'error': io['error']}
     else:
         v = {'entries': io['entries'], 'reports': io['reports'], 'render': [{b: r[b] for b in MODEL_BACKENDS} for r in io['render']]}
     v['ends'] = io.get('ends')
+    v['shipped'] = io.get('shipped')
     return v
 
 
 def model_out(case, reply):
+    if case['op'] in c07_fn.FN_OPS:
+        return c07_fn.model_out(case, reply)['fn']
     o = reply['out']
     if 'error' in o:
         e = o['error']
-        v = {'error': e if e[0] == 'FieldIsMissing' else [e[0]]}
+        v = {'error': e if e[0] in ('FieldIsMissing', 'BibliographyDataError') else [e[0]]}
     else:
         v = {'entries': o['entries'], 'reports': o['reports'], 'render': [{b: r[b] for b in MODEL_BACKENDS} for r in o['render']]}
     ends = dict(reply['spec']['ends_in_sentence'])
     v['ends'] = sorted([k, bool(ends.get(k))] for k in expected_ends(case))
+    sh = reply['spec'].get('shipped')
+    if isinstance(sh, dict) and isinstance(sh.get('out'), dict):
+        # keep the report readable: where the fully modelled run differs, show its keys / labels / error only
+        so = sh['out']
+        sh = dict(sh, out={'error': so['error']} if 'error' in so else {'entries': [[x[0], x[1]] for x in so.get('entries', [])]})
+    v['shipped'] = sh
     return v
 
 
@@ -634,6 +678,8 @@ def _sort_key(e):
 
 
 def oracle(case, io, reply):
+    if case['op'] in c07_fn.FN_OPS:
+        return c07_fn.oracle(case, io, reply)
     fails = []
     if 'error' in io and io['error'][0] == 'INTERNAL':
         return ['no_internal: %s' % io.get('detail')]
@@ -690,6 +736,18 @@ def oracle(case, io, reply):
             first_missing = (k.args[0], e['key'])
             break
     if 'error' in io:
+        if io['error'][0] == 'BibliographyDataError':
+            # an entry type the style does not define: a pybtex error naming type and entry, raised for the first such entry in
+            # formatting order and only if no earlier entry lacks a required field
+            undefined = [e for e in order if e['key'].lower() not in tmpls]
+            first_bad = next((e for e in order if e['key'].lower() not in tmpls or (first_missing and e['key'] == first_missing[1])), None)
+            if not undefined:
+                fails.append('undefined_type: %r although every entry has a type the style defines' % (io['error'],))
+            elif first_bad is not undefined[0]:
+                fails.append('undefined_type: %r reported although entry %r, formatted earlier, lacks the required field %r' % (
+                    io['error'], first_missing[1], first_missing[0]))
+            elif undefined[0]['type'] not in io['error'][1] or undefined[0]['key'] not in io['error'][1]:
+                fails.append('undefined_type: the error %r does not name type %r and entry %r' % (io['error'], undefined[0]['type'], undefined[0]['key']))
         if io['error'][0] == 'FieldIsMissing':
             if first_missing is None:
                 fails.append('missing_required: reported %r although no required field is missing' % (io['error'],))
@@ -698,6 +756,10 @@ def oracle(case, io, reply):
         return fails
     if first_missing is not None:
         fails.append('missing_required: field %r of entry %r is required and missing but no error was reported' % first_missing)
+        return fails
+    if any(e['key'].lower() not in tmpls for e in order):
+        fails.append('undefined_type: entry %r has a type the style does not define but no error was reported' % (
+            next(e['key'] for e in order if e['key'].lower() not in tmpls),))
         return fails
     got = io['entries']
     keys = [g[0] for g in got]
@@ -834,6 +896,8 @@ def _blank_after_in(case, f):
 
 
 def buckets(case, io):
+    if case['op'] in c07_fn.FN_OPS:
+        return c07_fn.buckets(case, io)
     cfg = configured(case)
     b = [case['style'], 'sort:%s' % cfg['sorting'], 'label:%s' % cfg['labels'], 'names:%s%s' % (cfg['names'], '+abbr' if cfg['abbr'] else '')]
     if 'error' in io:
@@ -846,6 +910,8 @@ def buckets(case, io):
 
 
 def nontrivial(case, io):
+    if case['op'] in c07_fn.FN_OPS:
+        return 'error' not in io.get('fn', {'error': 1})
     return len(io.get('entries') or []) >= 2
 
 
@@ -865,6 +931,8 @@ def valid_case(case):
     """shape of a case (used by the shrinker): known style / configuration names, distinct non-empty keys, known field names,
     brace-balanced values without the characters that end a BibTeX value, person fields that still hold a name"""
     try:
+        if case.get('op') in c07_fn.FN_OPS:
+            return c07_fn.valid_case(case)
         if case.get('op') != 'pystyle' or case['style'] not in STYLES or not isinstance(case['min_crossrefs'], int) or case['min_crossrefs'] < 1:
             return False
         if case.get('label_style', 'number') not in ('number', 'alpha') or case.get('sorting_style', 'none') not in ('none', 'author_year_title'):
@@ -876,10 +944,10 @@ def valid_case(case):
         keys = [e['key'].lower() for e in case['entries']]
         if len(set(keys)) != len(keys) or not all(re.fullmatch(r'[A-Za-z0-9]+', k) for k in keys):
             return False
-        if not all(isinstance(c, str) and re.fullmatch(r'[A-Za-z0-9*]+', c) for c in case['citations']):
+        if case['citations'] is not None and not all(isinstance(c, str) and re.fullmatch(r'[A-Za-z0-9*]+', c) for c in case['citations']):
             return False
         for e in case['entries']:
-            if e['type'] not in TYPES:
+            if e['type'] not in TYPES and e['type'] not in UNKNOWN_TYPES:
                 return False
             names = [f[0].lower() for f in e['fields']]
             if len(set(names)) != len(names):
@@ -957,6 +1025,10 @@ def gen_case(rng):
         cites = rng.sample(keys, rng.randint(1, n))
         if rng.random() < 0.1:
             cites.append('nosuch')
+    if rng.random() < 0.06:
+        cites = None          # format_bibliography(db) without a citation list
+    if rng.random() < 0.05:
+        rng.choice(entries)['type'] = rng.choice(UNKNOWN_TYPES)       # an entry type the styles do not define
     case = {'op': 'pystyle', 'entries': entries, 'citations': cites, 'min_crossrefs': rng.choice([1, 2, 2]), 'style': rng.choice(STYLES)}
     return _configure(rng, case)
 
@@ -1027,8 +1099,14 @@ def config_matrix():
                                 case[k] = v
                         out.append(case)
         # degenerate citation lists: nothing cited (nothing is formatted), only unknown keys, a key cited twice, a wild card next to explicit keys
-        for cites in ([], ['nosuch'], ['nosuch', 'nosuch2'], ['aa', 'aa'], ['mm', 'zz', 'mm'], ['*', 'aa'], ['bb', '*']):
+        for cites in ([], ['nosuch'], ['nosuch', 'nosuch2'], ['aa', 'aa'], ['mm', 'zz', 'mm'], ['*', 'aa'], ['bb', '*'], None):
             out.append({'op': 'pystyle', 'entries': entries, 'citations': cites, 'min_crossrefs': 2, 'style': st})
+        # an undefined entry type: first / last in formatting order, behind an entry that lacks a required field, uncited
+        odd = {'type': UNKNOWN_TYPES[0], 'key': 'odd', 'fields': [['author', 'Zed Zulu'], ['title', 'Zz'], ['year', '2020']]}
+        bad = {'type': 'article', 'key': 'nojournal', 'fields': [['author', 'Abe Abel'], ['title', 'Aa'], ['year', '1990']]}
+        for es, cites in ((entries + [odd], ['odd', 'zz']), (entries + [odd], ['zz', 'odd']), (entries + [odd], ['zz', 'aa']), (entries + [odd], None),
+                          ([bad, odd], ['nojournal', 'odd']), ([bad, odd], ['odd', 'nojournal']), ([odd], ['*'])):
+            out.append({'op': 'pystyle', 'entries': es, 'citations': cites, 'min_crossrefs': 2, 'style': st})
     return out
 
 
@@ -1074,7 +1152,10 @@ def gen_cases(tier, rng, info):
     for _ in range(1000 if tier == 'quick' else 12000):
         cases.append(gen_case(rng))
     _PENDING[:] = cases
-    return cases
+    # function by function (one driver op each, see props/c07_fn.py)
+    fn = c07_fn.gen_cases(tier, rng)
+    info['scope'] += '; %d function-level cases (styletemplate, namestyle, sortkey, pylabels, richfn, tmpleval)' % len(fn)
+    return cases + fn
 
 
 LEVEL_TEXT = ('Machine-checked proofs (Lean 4) over an executable model of the Python formatting engine: the template evaluator '
@@ -1094,14 +1175,24 @@ LEVEL_TEXT = ('Machine-checked proofs (Lean 4) over an executable model of the P
               'The model is tied to the code by a correspondence check over all 17 entry types x 4 styles x every label / sorting / name style / '
               'abbreviation combination in which the templates of the live style objects are serialised and evaluated by the Lean evaluator and '
               'the result is compared as rich text and as rendered by each of the four backends; the configuration the oracle and the model use '
-              'is read from the case, and every case also goes through PybtexEngine().format_from_string.')
+              'is read from the case, and every case also goes through PybtexEngine().format_from_string.  Round 2: the seventeen templates of '
+              'unsrt.py, the name styles plain / lastfirst, the plug-in choice of BaseStyle.__init__ (class attributes regenerated from /repo), '
+              'format_bibliography(citations=None) and the BibliographyDataError for an undefined entry type are INSIDE the model '
+              '(Model/UnsrtStyle.lean, Model/NameStyle.lean): the model templates are compared tree by tree with the live ones on every entry of '
+              'every case, the fully modelled run with the evaluator run, and each function of the engine has its own driver op '
+              '(styletemplate, namestyle, sortkey, pylabels, richfn, tmpleval).  Proved about the shipped styles: every word of every person '
+              'is under a name_part and shown (or its initials), the thirteen + two entry-type templates end in a sentence for EVERY entry, the '
+              'required lookups per entry type, the configuration table of the four styles.')
 LEVEL_NOTE = ('Trusted: Lean kernel; axioms propext/Classical.choice/Quot.sound only; the hand-written model corresponds to the Python code only as '
-              'far as the differential check explores; the templates get_<type>_template(entry) and the name-style templates are INPUTS of the '
-              'evaluator (the theorems quantify over all templates).  That the shipped templates satisfy endsInSentence is not part of the proof '
-              'but a MONITORED invariant: the driver evaluates the condition on every serialised live template and the check compares it with the '
-              'recorded expectation (13 entry types always, book / inbook when the entry has an editor; incollection / inproceedings end in '
-              'words["In", sentence[...]] and never do: finding C07-blank-field-in-unterminated); that the shipped name styles print every part of '
-              'a person is checked by the oracle clauses name_coverage / name_style on every case.  latexcodec decode is data computed by the real '
+              'far as the differential check explores; the general theorems quantify over all templates, the C07_shipped_* / C07_name_style_* '
+              'theorems are about the hand-written Lean copies of the shipped templates and name styles, which are tied to unsrt.py / plain.py / '
+              'lastfirst.py by tree comparison with the serialised live templates on every generated entry (not by generation).  That the shipped '
+              'templates satisfy endsInSentence is now a theorem about the model templates (C07_shipped_terminated: 13 entry types always, '
+              'book / inbook when the entry has an editor) and still monitored on every serialised live template; incollection / inproceedings end in '
+              'words["In", sentence[...]] and never do: finding C07-blank-field-in-unterminated; that the shipped name styles print every part of '
+              'a person is C07_name_style_parts / C07_person_words_shown for the model name styles and the oracle clauses name_coverage / '
+              'name_style on every case.  Model correction in round 2: an href node evaluates its URL before its children (the model had the '
+              'opposite order; only the field reported when both are missing differs; found by the node-level op tmpleval).  latexcodec decode is data computed by the real '
               'codec; case mapping inside rich text is the ASCII one of the C08 model (see ASSUMPTIONS for the generated region).  The model follows '
               'the code with proposed fixes C05-1 / C14-1 / C14-2 / C08-1..5 applied.  Alpha labels are NOT always distinct: '
               'C07_alpha_labels_partial + C07_alpha_labels_neg, known finding C07-alpha-suffix-collision (a unique base label equal to a repeated '
